@@ -112,12 +112,14 @@ Proof. induction ms as [|m ms IH]; intros s; cbn [fold_left]; [reflexivity|]. no
 Lemma frame_seq s s' : frame s s' -> ms_seq s' = ms_seq s.
 Proof. intros [E _]. exact E. Qed.
 
+Lemma seq_upd_mt g m s : ms_seq (upd_mt g m s) = ms_seq s. Proof. reflexivity. Qed.
+Lemma seq_clear_imm s : ms_seq (clear_imm s) = ms_seq s. Proof. reflexivity. Qed.
 Lemma seq_mono c s e : (ms_seq s <= ms_seq (fst (mstep c s e)))%N.
 Proof.
-  destruct e as [b| |fid|levels|fs|fs|c' lo hi|c' o|c']; cbn [mstep].
+  destruct e as [b| |fid|levels|fs|fs|c' lo hi|c' o|c'| |m' k n v|n]; cbn [mstep].
   - cbn [fst]. unfold do_write. cbv zeta. cbn [ms_seq]. lia.
   - destruct (ms_imm s); cbn [fst]; [lia|]. unfold do_rollover. cbv zeta. cbn [ms_seq upd_mt set_mts]. lia.
-  - destruct (ms_imm s) as [im|]; cbn [fst]; [|lia]. unfold do_flushdone. cbv zeta. unfold clear_imm. cbn [ms_seq upd_mt set_mts].
+  - destruct (ms_imm s) as [im|]; cbn [fst]; [|lia]. unfold do_flushdone. cbv zeta. rewrite !seq_upd_mt, seq_clear_imm.
     rewrite (frame_seq _ _ (proj1 (install_new_frame _ _))). lia.
   - cbn [fst]. rewrite (frame_seq _ _ (proj1 (install_new_frame _ _))). lia.
   - cbn [fst]. cbn. lia.
@@ -137,5 +139,51 @@ Proof.
     set (s1 := set_scans s _).
     assert (ms_seq (fold_left (fun s m => upd_mt (mt_drop_iter c) m s) (sc_mems sc) s1) = ms_seq s) as E2 by (rewrite fold_upd_seq; reflexivity).
     destruct (sc_holds sc); [|lia]. rewrite (frame_seq _ _ (proj1 (vref_drop_frame _ _))). lia.
+  - cbn. lia.
+  - destruct (insert_ok s m' k n); cbn; lia.
+  - destruct ((ms_vis s <? n)%N && (n <=? ms_seq s)%N); cbn; lia.
+Qed.
+
+(* the read timestamp only grows, and stays a sequence number that has been handed out *)
+Lemma fold_upd_vis g ms : forall s, ms_vis (fold_left (fun s m => upd_mt g m s) ms s) = ms_vis s.
+Proof. induction ms as [|m ms IH]; intros s; cbn [fold_left]; [reflexivity|]. now rewrite IH. Qed.
+Lemma frame_vis s s' : frame s s' -> ms_vis s' = ms_vis s.
+Proof. intros [_ [E _]]. exact E. Qed.
+Lemma vis_upd_mt g m s : ms_vis (upd_mt g m s) = ms_vis s. Proof. reflexivity. Qed.
+Lemma vis_clear_imm s : ms_vis (clear_imm s) = ms_vis s. Proof. reflexivity. Qed.
+
+Lemma vis_mono c s e : (ms_vis s <= ms_seq s)%N ->
+  (ms_vis s <= ms_vis (fst (mstep c s e)))%N /\ (ms_vis (fst (mstep c s e)) <= ms_seq (fst (mstep c s e)))%N.
+Proof.
+  intros Hv. pose proof (seq_mono c s e) as Hs.
+  assert (ms_vis (fst (mstep c s e)) = ms_vis s -> (ms_vis s <= ms_vis (fst (mstep c s e)))%N /\ (ms_vis (fst (mstep c s e)) <= ms_seq (fst (mstep c s e)))%N) as Hsame
+    by (intros E; rewrite E; lia).
+  destruct e as [b| |fid|levels|fs|fs|c' lo hi|c' o|c'| |m' k n v|n]; cbn [mstep] in *.
+  - cbn [fst]. unfold do_write. cbv zeta. cbn [ms_seq ms_vis]. lia.
+  - apply Hsame. destruct (ms_imm s); reflexivity.
+  - apply Hsame. destruct (ms_imm s) as [im|]; cbn [fst]; [|reflexivity]. unfold do_flushdone. cbv zeta. rewrite !vis_upd_mt, vis_clear_imm.
+    apply (frame_vis _ _ (proj1 (install_new_frame _ _))).
+  - apply Hsame. cbn [fst]. apply (frame_vis _ _ (proj1 (install_new_frame _ _))).
+  - apply Hsame. reflexivity.
+  - apply Hsame. reflexivity.
+  - apply Hsame. destruct (find_scan s c'); [reflexivity|]. unfold do_open. cbv zeta.
+    set (s2 := fold_left (fun s m => upd_mt mt_add_iter m s) (open_mems s) (take_snapshot s)).
+    assert (ms_vis s2 = ms_vis s) as E2 by (unfold s2; rewrite fold_upd_vis; reflexivity).
+    destruct (freed_any s2 (open_mems s)); [exact E2|].
+    destruct (negb (forallb (openable s2) _)); [exact E2|]. cbn [fst].
+    destruct (cf_holds_ver c).
+    + destruct (cf_cache c); exact E2.
+    + rewrite (frame_vis _ _ (proj1 (vref_drop_frame _ _))). destruct (cf_cache c); exact E2.
+  - apply Hsame. destruct (find_scan s c') as [sc|]; [|reflexivity]. unfold do_step. cbv zeta.
+    destruct (freed_any s (xmems (sc_x sc))); [reflexivity|].
+    destruct (negb (forallb (openable s) _)); [reflexivity|]. cbn [fst]. destruct (cf_cache c); reflexivity.
+  - apply Hsame. destruct (find_scan s c') as [sc|]; [|reflexivity]. cbn [fst]. unfold do_close. cbv zeta.
+    set (s1 := set_scans s _).
+    assert (ms_vis (fold_left (fun s m => upd_mt (mt_drop_iter c) m s) (sc_mems sc) s1) = ms_vis s) as E2 by (rewrite fold_upd_vis; reflexivity).
+    destruct (sc_holds sc); [|exact E2]. rewrite (frame_vis _ _ (proj1 (vref_drop_frame _ _))). exact E2.
+  - cbn. lia.
+  - apply Hsame. destruct (insert_ok s m' k n); reflexivity.
+  - destruct ((ms_vis s <? n)%N && (n <=? ms_seq s)%N) eqn:E; cbn [fst]; [|lia]. apply andb_prop in E. destruct E as [E1 E2].
+    apply N.ltb_lt in E1. apply N.leb_le in E2. cbn. lia.
 Qed.
 
